@@ -782,9 +782,51 @@ def mode_rule(ctx):
     return res
 
 
+def falsy_rule(ctx):
+    """NORM-FALSY.  `x or default` / `if not x:` on a numeric hyper-parameter treats 0 like None.  Where the
+    constructor admits 0 as a value (a momentum of 0 freezes the running statistics; the validation `0 <= m <= 1`
+    says so), the update rule silently becomes another one for exactly that value.  Decided in normalization.py:
+    no `self.<numeric hyper-parameter> or ..` and no bare truth test of one, unless the constructor rejects 0."""
+    p = ctx.p
+    res = RuleResult("NORM-FALSY", "no truthiness test (`x or default`, `if x:` / `if not x:`) of a numeric hyper-parameter of a normalisation layer that may legitimately be 0")
+    n = 0
+    for cname in ("BatchNorm", "ActNorm"):
+        cls = p.find_class(cname, "nflows.transforms.normalization")
+        if cls is None:
+            raise AnalysisIncomplete("class %s not found" % cname)
+        init = cls.lookup_method("__init__")
+        numeric = set()
+        if init is not None:
+            for a, d in init.params():
+                if d is not None and (const_number(d) is not None or (isinstance(d, ast.Constant) and d.value is None)) and not isinstance(getattr(d, "value", None), bool):
+                    numeric.add(a)
+            # rejected zero: `if p <= 0: raise` / `if not p > 0`
+            for st in ast.walk(init.node):
+                if isinstance(st, ast.If) and st.body and all(isinstance(b, ast.Raise) for b in st.body) and isinstance(st.test, ast.Compare) and len(st.test.ops) == 1 and isinstance(st.test.left, ast.Name) and isinstance(st.test.ops[0], ast.LtE) and const_number(st.test.comparators[0]) == 0:
+                    numeric.discard(st.test.left.id)
+        for m in cls.methods.values():
+            for x in ast.walk(m.node):
+                tests = []
+                if isinstance(x, ast.BoolOp) and isinstance(x.op, ast.Or):
+                    tests = x.values[:-1]
+                elif isinstance(x, (ast.If, ast.IfExp, ast.While)):
+                    t = x.test
+                    while isinstance(t, ast.UnaryOp) and isinstance(t.op, ast.Not):
+                        t = t.operand
+                    tests = [t]
+                for t in tests:
+                    nm = t.attr if isinstance(t, ast.Attribute) and isinstance(t.value, ast.Name) and t.value.id == "self" else (t.id if isinstance(t, ast.Name) else None)
+                    if nm is None or nm not in numeric:
+                        continue
+                    n += 1
+                    res.fail(Finding("NORM-FALSY", m.module, m.qualname, x if isinstance(x, ast.stmt) else (stmt_of(x) or x), "`%s` is tested for truth (`%s`): the value 0, which the constructor accepts, is treated like None / unset, so the layer follows another update rule for exactly that setting (a momentum of 0 is supposed to leave the running statistics alone); test `is None`" % (norm_text(t), norm_text(x)[:60] if not isinstance(x, ast.stmt) else norm_text(x.test)[:60]), construct="truth test of %s.%s" % (cname, nm)))
+    res.ok("BatchNorm / ActNorm: numeric hyper-parameters are not tested for truth (%d such tests)" % n, nontrivial=False)
+    return res
+
+
 register(
     "C14",
-    [actnorm_rule, batchnorm_life_rule, batchnorm_flow_rule, momentum_rule, load_rule, mode_rule],
+    [actnorm_rule, batchnorm_life_rule, batchnorm_flow_rule, momentum_rule, load_rule, mode_rule, falsy_rule],
     "Typestate analysis of ActNorm (abstract store training x initialized x {default,data}^2 x init-count) and BatchNorm with "
     "transfer functions derived by executing the bodies of forward/inverse/train/_initialize found in /repo, under all sequences "
     "of train/eval/forward/inverse/save+load (save+load modelled from the attribute kinds: parameters and persistent buffers "
